@@ -775,10 +775,12 @@ func concat(a ...MalType) (MalType, error) {
 	if len(a) == 0 {
 		return List{}, nil
 	}
-	slc1, e := GetSlice(a[0])
+	first, e := GetSlice(a[0])
 	if e != nil {
 		return nil, e
 	}
+	// copy: appending to the first argument's slice could overwrite values sharing its backing array
+	slc1 := append([]MalType{}, first...)
 	for i := 1; i < len(a); i += 1 {
 		slc2, e := GetSlice(a[i])
 		if e != nil {
